@@ -294,7 +294,53 @@ pub fn generate(prop: &str, out: &mut Out, thorough: bool, seed: u64) -> bool {
         }
     }
     targeted(out);
+    if thorough {
+        complete_tables(out);
+    }
     true
+}
+
+/// thorough: the multi-byte spaces that two-byte strings do not reach, enumerated completely, so that a
+/// single changed entry of any decode table has a concrete failing input: every gb18030 / GBK four-byte
+/// sequence of the BMP range pointers (0..=39419) and the astral boundaries, every EUC-JP three-byte
+/// (0x8F) sequence, every ISO-2022-JP two-byte sequence in the JIS X 0208 state and every byte in the
+/// katakana state
+fn complete_tables(out: &mut Out) {
+    use encoding_rs::{EUC_JP, GB18030, GBK, ISO_2022_JP};
+    for &e in &[GB18030, GBK] {
+        let mut emit_ptr = |p: u32| {
+            let b4 = (p % 10) as u8 + 0x30;
+            let b3 = ((p / 10) % 126) as u8 + 0x81;
+            let b2 = ((p / 1260) % 10) as u8 + 0x30;
+            let b1 = (p / 12600) as u8 + 0x81;
+            emit(out, e, &[b1, b2, b3, b4]);
+        };
+        for p in 0..=39420u32 {
+            emit_ptr(p);
+        }
+        for p in [188999u32, 189000, 189001, 1237575, 1237576, 1237577, 1587599] {
+            emit_ptr(p);
+        }
+        let mut p = 189000u32;
+        while p < 1237576 {
+            emit_ptr(p);
+            p += 4099;
+        }
+    }
+    for a in 0xA1..=0xFEu8 {
+        for b in 0xA1..=0xFEu8 {
+            emit(out, EUC_JP, &[0x8F, a, b]);
+        }
+    }
+    for a in 0x21..=0x7Eu8 {
+        for b in 0x21..=0x7Eu8 {
+            emit(out, ISO_2022_JP, &[0x1B, 0x24, 0x42, a, b]);
+        }
+    }
+    for a in 0x00..=0xFFu8 {
+        emit(out, ISO_2022_JP, &[0x1B, 0x28, 0x49, a]);
+        emit(out, ISO_2022_JP, &[0x1B, 0x28, 0x4A, a]);
+    }
 }
 
 pub fn replay(toks: &[&str], out: &mut Out) -> bool {
